@@ -37,6 +37,9 @@ def gen_valid(rng):
                 st["depends_on"] = deps
             names.append(nm)
             stages.append(st)
+        # declaration order is independent of dependency order: forward references are legal
+        if rng.random() < 0.5:
+            rng.shuffle(stages)
         pipes["p%d" % p] = stages
     watchers = {}
     for w in range(rng.choice([0, 0, 1, 2])):
@@ -64,9 +67,29 @@ def breakages(cfg):
                 c["pipelines"][p][k]["pipeline"] = "nosuchpipeline"
                 c["pipelines"][p][k].setdefault("name", stage_name(st))
                 yield "stage->pipeline", c
+            # an unknown name at EVERY position of the depends_on list
+            nd = len(st.get("depends_on", []))
+            for pos in range(nd + 1):
+                c = clone()
+                c["pipelines"][p][k].setdefault("depends_on", []).insert(pos, "nosuchstage")
+                yield "depends_on->stage", c
+            # the effective name of another stage reached through the DEFAULT (task / pipeline name) of an unnamed stage
+            other = stages[(k + 1) % len(stages)]
+            if len(stages) > 1:
+                ref = other.get("pipeline") or other.get("task")
+                c = clone()
+                c["pipelines"][p][k]["name"] = ref            # k is named like the default name of ...
+                c["pipelines"][p][k]["depends_on"] = []
+                c["pipelines"][p].append({("pipeline" if "pipeline" in other else "task"): ref})   # ... an unnamed stage added at the end
+                for st2 in c["pipelines"][p]:
+                    if st2.get("depends_on"):
+                        st2["depends_on"] = [d for d in st2["depends_on"] if d != stage_name(st)]
+                yield "duplicate-name", c
             c = clone()
-            c["pipelines"][p][k].setdefault("depends_on", []).append("nosuchstage")
-            yield "depends_on->stage", c
+            ref = st.get("pipeline") or st.get("task")
+            c["pipelines"][p].append({("pipeline" if "pipeline" in st else "task"): ref})
+            c["pipelines"][p].append({("pipeline" if "pipeline" in st else "task"): ref})          # two unnamed stages of the same task
+            yield "duplicate-name", c
             if k > 0:
                 c = clone()
                 c["pipelines"][p][k]["name"] = stage_name(stages[0])
